@@ -168,16 +168,14 @@ def main():
                 if a not in assumptions:
                     assumptions.append(a)
         base_by = {(r["cls"], r["structure"]): r for r in res}
+        per = {}
         for r in mres:
             k = "%s :: %s" % (r["contract"], r["mutant"])
-            ref = runner.mutant_refuted(r, base_by.get((r["cls"], r["structure"])))
-            err = r.get("error")
-            st = mutant_report.get(k, "not-refuted")
-            if ref:
-                st = "refuted"
-            elif err and st != "refuted":
-                st = "not-applicable: " + err.splitlines()[0][:120]
-            mutant_report[k] = st
+            per.setdefault(k, []).append(runner.mutant_status(r, base_by.get((r["cls"], r["structure"]))))
+        for k, sts in per.items():
+            # refuted on some structure: fine.  survived = every structure fully discharged under the fault (contract too
+            # weak).  anything else (solver timeouts under load, pattern no longer present) is inconclusive, not a failure.
+            mutant_report[k] = "refuted" if "refuted" in sts else "not-refuted" if all(s == "survived" for s in sts) else "inconclusive"
 
         # ---------------- tier L: lemmas, static scans (same obligation record format) ----------------
         for modname in ("lemmas", "frame"):
